@@ -102,10 +102,18 @@ def _run_guarded(op):
         return None
 
 
+_FRESH_N = [0]
+
+
 def _fresh_env():
     e = dict(os.environ)
     e['PYTHONPATH'] = env.VERIF
     e['VERIF_REPO'] = env.REPO
+    # every fresh interpreter gets another string-hash seed: a result that
+    # follows the iteration order of a set (or of anything else hashed) is a
+    # result that depends on more than its arguments
+    _FRESH_N[0] += 1
+    e['PYTHONHASHSEED'] = str(1 + (_FRESH_N[0] * 7919) % 4000000)
     return e
 
 
@@ -259,7 +267,8 @@ def _history(shard, rec, pool):
     # fresh-interpreter comparison of every distinct (op, switch) observed
     keys = sorted(first)
     rnd.shuffle(keys)
-    keys = keys[:shard['fresh']]
+    always = [k for k in keys if pool[k[0]].get('fresh_always')]
+    keys = always + [k for k in keys if k not in always][:shard['fresh']]
     with concurrent.futures.ThreadPoolExecutor(16) as ex:
         futs = {ex.submit(_fresh_one, pool[i], sw): (i, sw)
                 for i, sw in keys}
